@@ -71,6 +71,7 @@ def applyOp (s : St) : String → Option St
   | "Rok" => step s .respOk
   | "Rign" => step s .respIgnored
   | "Rerr" => step s .respErr
+  | "Rlie" => step s .respErr
   | "X" =>
     let s1 := (step s .respErr).getD s
     some { s1 with monPause := s1.monPause + 1 }
